@@ -7,7 +7,8 @@ from .. import reflex
 
 WS = " \t\r\n"
 TILING_ALPHABET = ["a", "i", "f", "0", "x", "9", "'", "/", "\n", " ", "<", "=", ":", "é", "\\", "n", "\r", "\t", "_", "(", "#",
-                   "ı", "ł", "€", "😀", "-", "*", ";", "\"", "@", "$", "\x00", " ", " ", "F", "w", "h", "l", "e", "[", "}", ",", "+", ">"]
+                   "ı", "ł", "€", "😀", "-", "*", ";", "\"", "@", "$", "\x00", " ", " ", "F", "w", "h", "l", "e", "[", "}", ",", "+", ">",
+                   "\x0b", "\x0c", "\x85", "\xa0", "\u2028", "\u3000", "\ufeff"]       # white space for Unicode but not for SPL; byte order mark
 EXH_ALPHABET = ["a", "f", "0", "x", "1", "'", "/", "\n", " ", "<", "=", ":", "é", "\\"]
 
 KEYWORDS = ["if", "else", "while", "array", "of", "proc", "ref", "type", "var"]
@@ -74,7 +75,8 @@ def conform_failures(text, toks):
 
 def gen_tiling(rng):
     n = rng.choice([1, 2, 3, 5, 8, 13, 30, 80, 200])
-    return "".join(rng.choice(TILING_ALPHABET) for _ in range(rng.randint(1, n)))
+    t = "".join(rng.choice(TILING_ALPHABET) for _ in range(rng.randint(1, n)))
+    return "\ufeff" + t if rng.random() < .05 else t          # a byte order mark in front is an ordinary unknown character
 
 
 def gen_conform(rng):
